@@ -44,6 +44,13 @@ func buildC13(tier string, seed int64) *Family {
 		"self::*[following::a]", "../*[following-sibling::a and a]", "*[not(following::*)]", "descendant::*[following::a or ancestor::a]", "*[(a | following::a)/@a]",
 		"ancestor-or-self::*[preceding-sibling::*]", "following::*[preceding::a]", "text()", "node()"}
 	abs := []string{"/", "/a", "/*", "//a", "//*", "//@a", "/*/*", "//a/..", "//*[following::a]", "//*[a and following::*]", "//a[1]", "//*[last()]", "/descendant::a", "//text()", "//*[preceding::a or @a]", "/*[a]/a"}
+	// unabbreviated first steps that the builder may fuse with the step after them
+	for _, ax := range oracle.Axes {
+		rel = append(rel, "descendant-or-self::node()/"+ax+"::a")
+	}
+	rel = append(rel, "descendant-or-self::node()/a", "descendant-or-self::node()/*", "descendant-or-self::node()/child::node()", "descendant-or-self::*/a", "descendant::node()/a",
+		"self::node()/a", "descendant-or-self::node()/a/a", "descendant-or-self::node()/a[1]", "descendant-or-self::node()/@a", "descendant-or-self::node()/text()",
+		"child::node()/descendant-or-self::node()/a", "parent::node()/descendant-or-self::node()/a", "descendant-or-self::node()/descendant-or-self::node()/a")
 	var insts []*vm.Instance
 	for _, p := range abs {
 		insts = append(insts, metaInst(p, "abs", cfg))
